@@ -18,5 +18,6 @@ CONSTANTS
   AllowDrop = FALSE
   AllowBnShare = TRUE
   PlainOps = {"add"}
+  Biases = {TRUE}
   AllowFindings = TRUE
   MaxHist = 0
